@@ -361,7 +361,13 @@ def externalize(ops, kind, rng, extras=True, permute=True, h5name='data.h5', ren
             items.append(['unused_extra', array_recipe(rng, items[0][1]['shape'][0], layout='C')])
         return ops, {'kind': 'struct', 'fields': items}
     if kind == 'h5':
-        return ops, {'kind': 'h5', 'file': h5name, 'datasets': [['/' + dn.lstrip('/'), rc] for dn, rc in items]}
+        d = {'kind': 'h5', 'file': h5name, 'datasets': [['/' + dn.lstrip('/'), rc] for dn, rc in items]}
+        if rng.random() < 0.5:
+            # storage layout of the source file: chunked (k rows per storage chunk), possibly compressed - or contiguous
+            d['h5_chunks'] = rng.choice([1, 2, 3, 4, 5, 7, 16])
+            if rng.random() < 0.3:
+                d['h5_compress'] = True
+        return ops, d
     raise ValueError(kind)
 
 
